@@ -4,7 +4,7 @@ from lib import core
 
 ID = 'C10'
 UNITS = ['chord_label']
-TRANSLATORS = ['chordre', 'tables']
+TRANSLATORS = ['chordre', 'tables', 'chordparse']
 NOT_COVERED = ('non-str labels; characters outside the grammar alphabet are rejected by both regexes by the verified lemma '
                'deriv_foreign (the Python side is sampled); the split/join round trip is stated for labels other than N and X '
                '(split("X") yields root "X", which join cannot re-validate; the property scopes the clause to labels other than N/X)')
